@@ -44,6 +44,7 @@ Proof.
   apply andb_true_iff in H; destruct H as [H C8].
   apply andb_true_iff in H; destruct H as [H C9].
   apply andb_true_iff in H; destruct H as [H C10].
+  apply andb_true_iff in H; destruct H as [H Ccap].
   apply andb_true_iff in H; destruct H as [H C11].
   apply andb_true_iff in H; destruct H as [H C12].
   apply andb_true_iff in H; destruct H as [C14 C13].
@@ -99,7 +100,9 @@ Qed.
 Theorem checked_state_usable : forall s, inv_check s = true ->
   cpc_validate s = Ok true /\
   (exists M, Vin s (c_lgk s) M) /\
-  (forall rc, valid (c_lgk s) rc -> 8 * (c_num s + 1) < 475 * 2 ^ c_lgk s -> exists s', row_col_update s rc = Ok s').
+  (forall rc M, Vin s (c_lgk s) M -> valid (c_lgk s) rc -> 8 * (c_num s + 1) < 475 * 2 ^ c_lgk s ->
+     fits (c_lgk s) (spec_update M rc) (pop_rows (spec_update M rc) (Knat (c_lgk s))) ->
+     exists s', row_col_update s rc = Ok s').
 Proof.
   intros s H. destruct (inv_check_sound s H) as [m [Em [I H64]]].
   set (M := fun r => nthN m r 0) in *.
@@ -110,9 +113,9 @@ Proof.
     repeat match goal with Hq : (_ <? _) = true |- _ => apply N.ltb_lt in Hq end. assumption. }
   destruct (inv_facts (c_lgk s) s M I H64 Hd) as [_ [_ [_ [_ [_ [_ [_ Hv]]]]]]].
   split; [exact Hv|]. split; [exists M; split; assumption|].
-  intros rc V Hd'.
-  destruct (step_inv (c_lgk s) s M rc I V) as [s' [E _]]; [|exists s'; exact E].
-  pose proof (rep_num s M (inv_rep _ s M I)) as Hn. destruct V as [Hrow _].
-  rewrite (pop_rows_step M rc) by (rewrite Knat_N; exact Hrow). rewrite <- Hn.
-  destruct (N.testbit (M (rc / 64)) (rc mod 64)); lia.
+  intros rc M' [I' _] V Hd' Hfit.
+  destruct (step_inv (c_lgk s) s M' rc I' V) as [s' [E _]]; [|exact Hfit|exists s'; exact E].
+  pose proof (rep_num s M' (inv_rep _ s M' I')) as Hn. destruct V as [Hrow _].
+  rewrite (pop_rows_step M' rc) by (rewrite Knat_N; exact Hrow). rewrite <- Hn.
+  destruct (N.testbit (M' (rc / 64)) (rc mod 64)); lia.
 Qed.
